@@ -275,7 +275,6 @@ static void do_op(const char *op)
 	    char *e = gets_(); vnaproperty_t *s; if (!e) { r_skip(); return; }
 	    LIB(s = vnaproperty_get_subtree(P[p], "%s", e)); r_ptr(s);
 	    /* a NULL subtree is a legitimate value (null node): not a failure unless errno says so */
-	    if (s != NULL) { int t; LIB(t = vnaproperty_type(s, ".")); snprintf(vbuf, sizeof vbuf, "%c", t > 0 ? t : '?'); }
 	}
 	else if (!strcmp(op, "psetsub")) {
 	    char *e = gets_(); char *val = gets_(); vnaproperty_t **a; if (!e) { r_skip(); return; }
